@@ -184,7 +184,7 @@ def run(ctx, cases):
         txt = open(gen).read() if os.path.exists(gen) else ''
         pr = probes.get(c.ci, {})
         allobs.append({'ci': c.ci, 'key': c.case['key'], 'cmd': 'copy', 'declared': declared_names(txt), 'expected': expected[d],
-                       'built_default': obs[d]['built'], 'built_inject': 'ok' if d in good else 'na',
+                       'built_default': obs[d]['built'], 'frame_ok': obs[d].get('frame_ok', True), 'built_inject': 'ok' if d in good else 'na',
                        'probe_default': [pr['default']] if 'default' in pr else [], 'probe_inject': [pr['inject']] if 'inject' in pr else [],
                        'failed': obs[d]['failed'], 'wrote': obs[d]['wrote'], 'panic': obs[d]['panic'], 'hang': False, 'diags': obs[d]['diags'],
                        'build_err': obs[d].get('build_err', ''), 'stderr_tail': obs[d].get('stderr_tail', '')[-600:]})
